@@ -82,13 +82,12 @@ Definition skip_set_tag (bs : bytes) : result (bool * bytes) :=
 
 (* The element loop shared by the collection deserializers
      while match len { Len(n) => count < n, Indefinite => true } {
-         if <next is Special> { <must be Break> ; break }      (also inside a definite-length array)
+         if <next is Special> { <must be Break, and the length must be indefinite> ; break }
          push(elem(raw)?) }
-   [BrkErr]: is_break_tag (a non-break special is an error); [BrkPanic]: `assert_eq!(raw.special()?, Break)`
-   of Vkeywitnesses / BootstrapWitnesses (a non-break special panics). *)
-Inductive brk_mode := BrkErr | BrkPanic.
-
-Fixpoint dec_elems {A} (p : parser A) (md : brk_mode) (fuel : nat) (len : harg) (cnt : N) (bs : bytes)
+   is_break_tag (serialization/utils.rs:156-178) and the copies of it in Vkeywitnesses / BootstrapWitnesses:
+   as of /repo 795c77b + ec1af1f a non-break special is an error (it used to panic in the two witness
+   collections) and so is a break inside a definite-length container (it used to end the collection). *)
+Fixpoint dec_elems {A} (p : parser A) (fuel : nat) (len : harg) (cnt : N) (bs : bytes)
   : result (list A * bytes) :=
   match fuel with
   | O => OutOfFuel
@@ -97,21 +96,21 @@ Fixpoint dec_elems {A} (p : parser A) (md : brk_mode) (fuel : nat) (len : harg) 
       let* t := cbor_type bs in
       if t =? 7 then
         let* '(s, r) := rd_special bs in
-        if is_break s then Ok ([], r)
-        else match md with BrkErr => Err | BrkPanic => Panic end
+        if is_break s then (match len with Arg _ => Err | Indef => Ok ([], r) end)
+        else Err
       else
         let* '(x, r) := p bs in
-        let* '(xs, r') := dec_elems p md f len (cnt + 1) r in
+        let* '(xs, r') := dec_elems p f len (cnt + 1) r in
         Ok (x :: xs, r')
     else Ok ([], bs)
   end.
 
 (* [tag 258] [tag 258 again when double] array-head elements.  Result: (had the set tag, definite, elements) *)
-Definition dec_set {A} (p : parser A) (md : brk_mode) (double : bool) : parser (bool * bool * list A) := fun bs =>
+Definition dec_set {A} (p : parser A) (double : bool) : parser (bool * bool * list A) := fun bs =>
   let* '(tagged, r0) := skip_set_tag bs in
   let* '(_, r0') := (if double then skip_set_tag r0 else Ok (false, r0)) in
   let* '(len, r1) := rd_array r0' in
-  let* '(xs, r2) := dec_elems p md (S (length r1)) len 0 r1 in
+  let* '(xs, r2) := dec_elems p (S (length r1)) len 0 r1 in
   Ok ((tagged, match len with Arg _ => true | Indef => false end, xs), r2).
 
 (* deserilized_with_orig_bytes: the bytes between the stream position before and after the inner parser *)
